@@ -5,6 +5,8 @@ import XmppModel.Model.Encoder
 /-! Driver for C13 (see harness/c13 for the line protocol).  All text fields hex (`-` empty).
 
     start <kind> <space> <id> <to> <from> <lang> <typ>          -> start token
+    mstart <kind> <space> <id> <to> <from> <lang> <typ>         -> start token printed by xml.Marshal
+    rnew <kind> <tok> <v=j,…>                                   -> like new, for xml.Unmarshal (reflection)
     new <kind> <tok> <v=j,…>                                    -> ok <space> <loc> <id> <to> <from> <lang> <typ> | err
     wrap <kind> <6 fields> <payload>                            -> tokens
     result <6 fields> <payload>                                 -> tokens
@@ -63,6 +65,17 @@ def handle (args : List String) : Option String :=
   | ["start", k, sp, id, to, fr, lang, typ] => do
     let k ← parseKind k; let x ← mkStz sp id to fr lang typ
     pure (showToks [startElement k x])
+  | ["mstart", k, sp, id, to, fr, lang, typ] => do
+    let k ← parseKind k; let x ← mkStz sp id to fr lang typ
+    pure (showToks [.start (marshalName k) (marshalAttrs k x)])
+  | ["rnew", k, tok, table] => do
+    let k ← parseKind k; let t ← decTok tok; let tb ← parseTable table
+    match t with
+    | .start n as =>
+      match reflectNew (lookup tb) k n as with
+      | some v => pure s!"ok {hx v.name.space} {hx v.name.loc} {hx v.id} {hx v.to} {hx v.from_} {hx v.lang} {hx v.typ}"
+      | none => pure "err"
+    | _ => none
   | ["new", k, tok, table] => do
     let k ← parseKind k; let t ← decTok tok; let tb ← parseTable table
     match t with
